@@ -59,7 +59,7 @@ class Contract:
                  raises=None, may_raise=(), defines=None, loops=None, ghosts=(), locals=None,
                  ghost_init=None, trusted=False, inline=False, note="", props=(),
                  ghost_params=None, result_name="result", lemmas=(), pure=True,
-                 must_raise=None, logs=None, map_keys=None, raise_allowed=None, ghost_results=None, call_site=True, silent=None):
+                 must_raise=None, logs=None, map_keys=None, raise_allowed=None, ghost_results=None, call_site=True, silent=None, mode=None):
         self.key = key
         self.inst = inst
         self.params = OrderedDict(params)
@@ -93,6 +93,11 @@ class Contract:
         self.call_site = call_site    # False: verified only, never used at call sites
         # silent: the function logs no warning (default unless a clause mentions _warnings)
         self.silent = silent
+        # mode 'safety': weak-precondition instance used for the escape analysis (C18); units verified in
+        # safety mode resolve their callees to safety instances where one exists
+        self.mode = mode
+        self.native_oracle = None     # see contracts/oracles.py (bounded stand-in only)
+        self.oracle_order = None
 
     @property
     def is_silent(self):
@@ -131,10 +136,14 @@ class Registry:
                 return c
         raise KeyError(name)
 
-    def lookup(self, key, conc_args: dict, args=None):
+    def lookup(self, key, conc_args: dict, args=None, mode=None):
         """Contract instance for a call of `key` whose concrete arguments are conc_args
         (param name -> live object)."""
         cands = self.contracts.get(key, [])
+        if mode == "safety" and any(c.mode == "safety" for c in cands):
+            cands = [c for c in cands if c.mode == "safety"]
+        else:
+            cands = [c for c in cands if c.mode != "safety"]
         best = None
         for c in cands:
             ok = c.call_site
